@@ -456,6 +456,91 @@ func splitSet(e *common.Env) charcode.CodeSpaceRange {
 	return csr
 }
 
+// tilingSets enumerates mixed-length range sets that tile one level of the
+// lookup tree WITHOUT invalid gaps: the byte values 00..FF of that level are
+// cut into 2..4 consecutive blocks at points of the boundary alphabet, and
+// every block is either the last byte of a short code or the lead byte of codes
+// that are one or two bytes longer (short | long | short, long | short | long,
+// ...).  depth 0: the level is the first byte; depth 1: the level is the
+// second byte below a shared lead range.  (Seeded change C12-5: a walk that
+// glues the leaves on both sides of a sub-tree together.)
+func tilingSets() []charcode.CodeSpaceRange {
+	cuts := []int{0x01, 0x10, 0x40, 0x7F, 0x80, 0xFE, 0xFF}
+	var res []charcode.CodeSpaceRange
+	var subsets [][]int
+	var rec func(from int, cur []int)
+	rec = func(from int, cur []int) {
+		if len(cur) > 0 {
+			subsets = append(subsets, append([]int{}, cur...))
+		}
+		if len(cur) == 3 {
+			return
+		}
+		for i := from; i < len(cuts); i++ {
+			rec(i+1, append(cur, cuts[i]))
+		}
+	}
+	rec(0, nil)
+	for _, sub := range subsets {
+		starts := append([]int{0}, sub...)
+		k := len(starts)
+		total := 1
+		for i := 0; i < k; i++ {
+			total *= 3
+		}
+		for pat := 0; pat < total; pat++ {
+			kinds := make([]int, k)
+			x, zeros, nonzeros := pat, 0, 0
+			for i := range kinds {
+				kinds[i] = x % 3
+				x /= 3
+				if kinds[i] == 0 {
+					zeros++
+				} else {
+					nonzeros++
+				}
+			}
+			if zeros == 0 || nonzeros == 0 {
+				continue
+			}
+			for depth := 0; depth < 2; depth++ {
+				for tail := 0; tail < 2; tail++ {
+					var csr charcode.CodeSpaceRange
+					var preLo, preHi []byte
+					if depth == 1 {
+						preLo, preHi = []byte{0x81}, []byte{0x9F}
+						if tail == 1 {
+							// some one-byte codes next to the lead range
+							csr = append(csr, charcode.Range{Low: []byte{0x00}, High: []byte{0x7F}})
+						}
+					}
+					for i := 0; i < k; i++ {
+						lo := starts[i]
+						hi := 0xFF
+						if i+1 < k {
+							hi = starts[i+1] - 1
+						}
+						r := charcode.Range{
+							Low:  append(append([]byte{}, preLo...), byte(lo)),
+							High: append(append([]byte{}, preHi...), byte(hi)),
+						}
+						for j := 0; j < kinds[i]; j++ {
+							if tail == 0 {
+								r.Low, r.High = append(r.Low, 0x00), append(r.High, 0xFF)
+							} else {
+								r.Low, r.High = append(r.Low, 0x40), append(r.High, 0x7E)
+							}
+						}
+						csr = append(csr, r)
+					}
+					res = append(res, csr)
+				}
+			}
+		}
+	}
+	return res
+}
+
 func main() {
 	e := common.New(12)
 	t := &runner{e: e, maxLen: 3}
@@ -469,6 +554,10 @@ func main() {
 	t.testSet(charcode.Simple, 1)
 	t.testSet(charcode.UCS2, 1)
 	t.testSet(charcode.CodeSpaceRange{}, 1)
+
+	// short | long | short on one level without a gap (seeded change C12-5)
+	t.testSet(charcode.CodeSpaceRange{{Low: []byte{0x00}, High: []byte{0x3F}}, {Low: []byte{0x40, 0x00}, High: []byte{0x7F, 0xFF}}, {Low: []byte{0x80}, High: []byte{0xFF}}}, 1)
+	t.testSet(charcode.CodeSpaceRange{{Low: []byte{0x00, 0x00}, High: []byte{0xFF, 0x3F}}, {Low: []byte{0x00, 0x40, 0x20}, High: []byte{0xFF, 0x7F, 0x7F}}, {Low: []byte{0x00, 0x80}, High: []byte{0xFF, 0xFF}}}, 1)
 
 	// a valid, prefix-free set whose lookup tree needs more than 65531 nodes
 	t.testHuge()
@@ -508,6 +597,23 @@ func main() {
 	for i := 0; i < n; i++ {
 		t.testSet(splitSet(e), 40)
 	}
+	// mixed-length sets tiling one level without gaps: all of them in the
+	// thorough tier, a seeded sample otherwise
+	tiles := tilingSets()
+	e.Dist["tiling-sets-enumerated"] = len(tiles)
+	if e.Thorough {
+		t.light = true
+		for _, csr := range tiles {
+			t.testSet(csr, 200)
+		}
+		t.light = false
+	} else {
+		t.light = true
+		for i := 0; i < 1200; i++ {
+			t.testSet(tiles[e.Rand.IntN(len(tiles))], 100)
+		}
+		t.light = false
+	}
 	// three ranges over the boundary alphabet
 	n = e.Pick(1000, 60000)
 	for i := 0; i < n; i++ {
@@ -516,7 +622,8 @@ func main() {
 
 	e.Finish("range sets: corpus, all single ranges of <=2 bytes over the boundary alphabet {00,01,10,7F,80,FE,FF}, "+
 		"pairs (all in thorough, sampled in quick), triples, random sets of 1..4 ranges of 1..4 bytes and ranges cut into "+
-		"adjacent / nearly adjacent pieces; "+
+		"adjacent / nearly adjacent pieces, and mixed-length sets that tile one tree level (depth 0 and 1) without "+
+		"gaps (short|long|short ..., systematically over the boundary alphabet: all in thorough, sampled in quick); "+
 		"strings: all 1- and 2-byte strings over the induced class representatives plus 3- and 5-byte extensions; "+
 		"non-trivial = string longer than one byte against a non-empty range set, distinct by (set,string); "+
 		"every accepted set's real node array additionally goes through the extracted certified validator lin_ok",
